@@ -251,8 +251,12 @@ func examineSnaps(
 				obsoleteTests = append(obsoleteTests, testID)
 				hasDiffs = true
 
-				removeSnapshot(s)
-				continue
+				// only drop the entry when deleting is allowed; otherwise keep its content so
+				// that a rewrite for sorting does not lose it
+				if update {
+					removeSnapshot(s)
+					continue
+				}
 			}
 
 			for s.Scan() {
